@@ -85,7 +85,12 @@ def run(ctx):
       ad = random_doc(ctx.rng, max_nodes=30)
       decorate(ad, ctx.rng, index, p_style=0.45, p_anim=0.25)
       pts = probe_times(ad)
-      times = sorted(ctx.rng.sample(pts, min(len(pts), ctx.rng.randint(2, 4))))
+      times = set(ctx.rng.sample(pts, min(len(pts), ctx.rng.randint(2, 4))))
+      # always look just inside the windows of the animation steps (resolved against each element's own interval)
+      from ..docgen import step_boundaries
+      inside = sorted({own + 1 for own, _par, _off in step_boundaries(ad) if own + 1 in pts})
+      times |= set(ctx.rng.sample(inside, min(len(inside), 4)))
+      times = sorted(times)
       jobs.append({"id": rid, "ad": ad, "cat": "stylecat", "times": times, "focus": []})
       origin[rid] = ("random", None, ad)
 
